@@ -9,7 +9,7 @@ from __future__ import annotations
 import json
 
 import adapter
-from nutree import IterMethod, Tree
+from nutree import IterMethod, Node, Tree
 from nutree.typed_tree import TypedTree
 
 
@@ -70,6 +70,19 @@ class ImplWorld:
             ti = b.get("ft", op["t"])
             return self.node(ti, b["path"])
         return b
+
+    def del_key(self, op):
+        """the key object of `del tree[key]` (op `w.del`).  Exactly one of: `"a"` = the pool data object
+        `pool.objs[a]`; `"did"` = a raw data_id (int / str); `"hash_of"` = `hash(pool.objs[i])` as a raw int
+        (the default data_id of that object; not replayable as a number: str hashes are salted per process);
+        `"node"` = the `Node` at that path (refused with ValueError)."""
+        if op.get("node") is not None:
+            return self.node(op["t"], op["node"])
+        if op.get("hash_of") is not None:
+            return hash(self.pool.objs[op["hash_of"]])
+        if op.get("a") is not None:
+            return self.pool.objs[op["a"]]
+        return op["did"]
 
     def apply(self, op):
         """returns 'ok' or the error class"""
@@ -245,6 +258,8 @@ class ImplWorld:
                 t.filter(pred)
             else:
                 self.node(op["t"], op["n"]).filter(pred)
+        elif k == "w.del":
+            del t[self.del_key(op)]
         elif k == "w.meta":
             n = self.node(op["t"], op["n"])
             kind = op["kind"]
@@ -271,31 +286,28 @@ class ImplWorld:
 
 
 def model_op(op, impl):
-    """translate an implementation-level op (shortcuts etc.) to the model's op alphabet —
-    the *specification* of the shortcuts: append_child = add(before=None); prepend_child =
-    add(before=first child); prepend_sibling(n) = parent.add(before=n);
-    append_sibling(n) = parent.add(before=next sibling of n)."""
+    """translate an implementation-level op to the driver's wire format.  The MEANING of the entry points is in
+    the Lean model (`World.step`): the shortcuts (`via`, called on the node at `p` resp. `ref`), `del tree[key]`,
+    the metadata calls and `Tree.clear()` / `Tree.sort()` are sent as they are.  What is computed here only describes
+    the arguments the harness passes to the implementation (the explicit `kind="child"` for typed trees, the
+    harness' own `deep=False` for `sort_children`, what kind of object a `del` key is)."""
     m = {k: v for k, v in op.items() if not k.startswith("_")}
     if op["op"] == "w.add":
-        via = op.get("via")
         typed = impl.trees[op["t"]].__class__ is TypedTree
         if typed and op.get("kind") is None and not op.get("nokind"):
-            m["kind"] = "child"
-        if via == "prepend_child":
-            tgt = impl.node(op["t"], op["p"])
-            m["before"] = {"path": list(op["p"]) + [0]} if tgt.children else None
-        elif via == "append_child":
-            m["before"] = None
-        elif via in ("prepend_sibling", "append_sibling"):
-            ref = list(op["ref"])
-            m["p"] = ref[:-1]
-            sibs = impl.node(op["t"], ref[:-1]).children
-            if via == "prepend_sibling":
-                m["before"] = {"path": ref}
-            else:
-                m["before"] = {"path": ref[:-1] + [ref[-1] + 1]} if ref[-1] + 1 < len(sibs) else None
-            if typed:
-                m["kind"] = impl.node(op["t"], ref).kind
+            m["kind"] = "child"   # `_apply` passes kind="child" explicitly (not to the sibling shortcuts: they have no `kind=`)
+    if op["op"] == "w.del":
+        # describe the key: `a` = it is (identical or, like the hook of the harness decides, equal and of the same type as)
+        # the pool object a; `did` = it is an int / str
+        key = impl.del_key(op)
+        m = {"op": "w.del", "t": op["t"], "a": None, "did": None}
+        if not isinstance(key, Node):
+            try:
+                m["a"] = impl.pool.index_of(key)
+            except KeyError:
+                pass
+            if isinstance(key, (int, str)) and not isinstance(key, bool):
+                m["did"] = key
     if op["op"] == "w.addnode" and op.get("via") == "copy_to":
         m["kind"] = None   # copy_to() has no `kind` argument
     if op["op"] == "w.setdata" and op.get("via") == "rename":
@@ -311,9 +323,9 @@ def model_op(op, impl):
             m["deep"] = op.get("deep", False)
     if op["op"] == "w.sort":
         if not op["n"] and op.get("tree_api", True):
-            m["deep"] = op.get("deep", True)
+            pass   # Tree.sort(): `deep` is sent only if the caller passes it; the default is the model's
         else:
-            m["deep"] = op.get("deep", False)
+            m["deep"] = op.get("deep", False)   # `_apply` always passes deep= to sort_children()
     if op["op"] == "w.move" and op.get("cross"):
         m["to"] = []
     return m
